@@ -52,3 +52,155 @@ Qed.
     into the overlay model). *)
 Lemma enc_wrap_inj : forall a b, enc (wrap a) = enc (wrap b) -> a = b.
 Proof. intros a b E. apply wrap_inj, enc_inj, E. Qed.
+
+(** ** Dataset values on the plain specification tree of C01.
+
+    [t_step] is the specification the overlay is proved to refine (C01); here: one
+    specification step leaves the value of every dataset it does not remove untouched, and
+    copy/move deliver the source value at the destination.  (The side condition "[p] is
+    not below the copy destination" holds in every parent-closed tree, where a free
+    destination has nothing below it.) *)
+
+Lemma t_mkgroups_keeps : forall q T T' p e,
+  t_mkgroups T q = Some T' -> T !! p = Some e -> T' !! p = Some e.
+Proof.
+  induction q as [|s par IH]; intros T T' p e M G; simpl in M.
+  - injection M as <-. exact G.
+  - destruct (t_mkgroups T par) as [T1|] eqn:M1; [|discriminate].
+    specialize (IH _ _ _ _ M1 G).
+    destruct (T1 !! (s :: par)) as [[v|]|] eqn:L; [discriminate| |].
+    + injection M as <-. exact IH.
+    + injection M as <-. rewrite lookup_insert_ne; [exact IH|]. intro X. subst. congruence.
+Qed.
+
+Lemma node_path_not_attr : forall p k (p' : path),
+  p <> [] -> is_node_path p = true -> p <> (true, k) :: p'.
+Proof.
+  intros p k p' N I X. subst. unfold is_node_path in I. simpl in I. discriminate.
+Qed.
+
+Global Instance app_tail_inj {X} (d : list X) : Inj (=) (=) (λ r : list X, r ++ d).
+Proof. intros a b E. eapply app_inv_tail, E. Qed.
+
+Lemma graft_snap_None : forall (S : gmap path tentry) d p,
+  ¬ under d p -> t_graft_snap S d !! p = None.
+Proof.
+  intros S d p N. unfold t_graft_snap. apply lookup_kmap_None; [apply _|].
+  intros r ->. exfalso. apply N. apply suffix_app_r. reflexivity.
+Qed.
+
+Lemma graft_snap_root : forall (S : gmap path tentry) d, t_graft_snap S d !! d = S !! [].
+Proof.
+  intros S d. unfold t_graft_snap. exact (lookup_kmap (λ r : path, r ++ d) S []).
+Qed.
+
+Lemma strip_self : forall s, strip s s = Some [].
+Proof.
+  intro s. unfold strip. destruct (decide (under s s)) as [_|N].
+  - rewrite Nat.sub_diag. reflexivity.
+  - exfalso. apply N. reflexivity.
+Qed.
+
+Lemma strip_nil_inv : forall s p, strip s p = Some [] -> p = s.
+Proof.
+  intros s p. unfold strip. destruct (decide (under s p)) as [[r ->]|]; [|discriminate].
+  intro E. injection E as E. rewrite app_length in E.
+  replace (length r + length s - length s) with (length r) in E by lia.
+  rewrite take_app in E. subst r. reflexivity.
+Qed.
+
+Lemma rel_snap_root : forall (T : tree) s e, T !! s = Some e -> rel_snap T s !! [] = Some e.
+Proof.
+  intros T s e G. unfold rel_snap. apply elem_of_list_to_map_1'.
+  - intros y Y. apply elem_of_list_omap in Y. destruct Y as ([p x] & In & E). simpl in E.
+    destruct (strip s p) as [r|] eqn:St; [|discriminate]. simpl in E. injection E as -> ->.
+    apply strip_nil_inv in St. subst p. apply elem_of_map_to_list in In. congruence.
+  - apply elem_of_list_omap. exists (s, e). split; [apply elem_of_map_to_list, G|].
+    simpl. rewrite strip_self. reflexivity.
+Qed.
+
+Lemma t_copy_value : forall (T T' : tree) s d e,
+  t_copy T s d = Some T' -> T !! s = Some e -> T' !! d = Some e.
+Proof.
+  intros T T' s d e C G. unfold t_copy in C.
+  destruct s as [|s0 s']; [discriminate|]. destruct d as [|d0 dpar]; [discriminate|].
+  rewrite G in C. destruct (T !! (d0 :: dpar)); [discriminate|].
+  destruct (t_mkgroups T dpar) as [T1|]; [|discriminate]. injection C as <-.
+  apply lookup_union_Some_l. rewrite graft_snap_root. apply rel_snap_root, G.
+Qed.
+
+Lemma t_copy_keeps : forall (T T' : tree) s d p e,
+  t_copy T s d = Some T' -> T !! p = Some e -> ¬ under d p -> T' !! p = Some e.
+Proof.
+  intros T T' s d p e C G N. unfold t_copy in C.
+  destruct s as [|s0 s']; [discriminate|]. destruct d as [|d0 dpar]; [discriminate|].
+  destruct (T !! (s0 :: s')); [|discriminate]. destruct (T !! (d0 :: dpar)); [discriminate|].
+  destruct (t_mkgroups T dpar) as [T1|] eqn:M; [|discriminate]. injection C as <-.
+  rewrite lookup_union_r; [eapply t_mkgroups_keeps; eassumption|].
+  apply graft_snap_None, N.
+Qed.
+
+Lemma t_delete_keeps : forall (T T' : tree) q p e,
+  t_delete T q = Some T' -> T !! p = Some e -> ¬ under q p -> T' !! p = Some e.
+Proof.
+  intros T T' q p e Dl G N. unfold t_delete in Dl. destruct q; [discriminate|].
+  destruct (T !! (p0 :: q)); [|discriminate]. injection Dl as <-.
+  unfold cut. apply map_lookup_filter_Some. split; [exact G | exact N].
+Qed.
+
+(** copy / move deliver the value ... *)
+Lemma t_move_value : forall (T T' : tree) s d e,
+  t_move T s d = Some T' -> T !! s = Some e -> T' !! d = Some e /\ T' !! s = None.
+Proof.
+  intros T T' s d e M G. unfold t_move in M.
+  destruct (decide (under s d)) as [|N]; [discriminate|].
+  destruct (t_copy T s d) as [T1|] eqn:C; [|discriminate]. split.
+  - eapply t_delete_keeps; [exact M | eapply t_copy_value; eassumption | exact N].
+  - unfold t_delete in M. destruct s; [discriminate|]. destruct (T1 !! (p :: s)); [|discriminate].
+    injection M as <-. unfold cut. apply map_lookup_filter_None. right. intros x _ X. apply X. reflexivity.
+Qed.
+
+(** ... and every step keeps the datasets it is not aimed at. *)
+Definition t_keeps (p : path) (o : op) : Prop :=
+  match o with
+  | ODel q => ¬ under q p
+  | OCopy s d => ¬ under d p
+  | OMove s d => ¬ under s p /\ ¬ under d p
+  | _ => True
+  end.
+
+Lemma t_step_keeps : forall (T : tree) o p e,
+  p <> [] -> is_node_path p = true -> T !! p = Some e -> t_keeps p o ->
+  (t_step T o).1 !! p = Some e.
+Proof.
+  intros T o p e NE NP G K. unfold t_step.
+  destruct o; simpl in K.
+  - (* OGroup *) destruct (is_node_path q); [|exact G].
+    unfold t_create_group. destruct q as [|q0 q']; [exact G|].
+    destruct (T !! (q0 :: q')); [exact G|].
+    destruct (t_mkgroups T (q0 :: q')) as [T1|] eqn:M; [|exact G].
+    simpl. eapply t_mkgroups_keeps; eassumption.
+  - (* OData *) destruct (is_node_path q && negb (is_del_value v)); [|exact G].
+    unfold t_set_data. destruct q as [|q0 q']; [exact G|].
+    destruct (T !! (q0 :: q')) eqn:F; [exact G|].
+    destruct (t_mkgroups T q') as [T1|] eqn:M; [|exact G]. simpl.
+    rewrite lookup_insert_ne; [eapply t_mkgroups_keeps; eassumption|]. intro X. subst. congruence.
+  - (* ODel *) destruct (is_node_path q); [|exact G].
+    destruct (t_delete T q) as [T1|] eqn:Dl; [|exact G]. simpl. eapply t_delete_keeps; eassumption.
+  - (* OAttrSet *) destruct (is_node_path p0 && negb (is_del_value v)); [|exact G].
+    unfold t_attr_set. destruct (tget T p0); [|exact G]. simpl.
+    rewrite lookup_insert_ne; [exact G|]. intro X. symmetry in X. revert X. apply node_path_not_attr; assumption.
+  - (* OAttrDel *) destruct (is_node_path p0); [|exact G].
+    unfold t_attr_del. destruct (tget T p0); [|exact G].
+    destruct (T !! ((true, k) :: p0)); [|exact G]. simpl.
+    rewrite lookup_delete_ne; [exact G|]. intro X. symmetry in X. revert X. apply node_path_not_attr; assumption.
+  - (* OCopy *) destruct (is_node_path src && is_node_path dst); [|exact G].
+    destruct (t_copy T src dst) as [T1|] eqn:C; [|exact G]. simpl. eapply t_copy_keeps; eassumption.
+  - (* OMove *) destruct (is_node_path src && is_node_path dst); [|exact G].
+    destruct K as [K1 K2]. unfold t_move.
+    destruct (decide (under src dst)); [exact G|].
+    destruct (t_copy T src dst) as [T1|] eqn:C; [|exact G].
+    destruct (t_delete T1 src) as [T2|] eqn:Dl; [|exact G]. simpl.
+    eapply t_delete_keeps; [exact Dl | eapply t_copy_keeps; eassumption | exact K1].
+  - (* OBoundary *) exact G.
+Qed.
